@@ -320,8 +320,8 @@ def staleend_stream(ctx, count, repl="[$1|$2]"):
 
 def grammar_tree_stream(ctx, count, repl=""):
     """pattern texts printed from random trees of the grammar of coq/Proofs/GroupGrammar.v (runs of
-    ordinary characters, quantified characters c? c* c+ c{n} c{n,} c{n,m} and their reluctant forms, the dot
-    (bare or quantified, with and without flag s), the anchors ^ $ under XPath, alternation, capturing and non-capturing groups, empty branches, any nesting): the domain of the theorems
+    ordinary characters, quantified characters c? c* c+ c{n} c{n,} c{n,m} and their reluctant forms, the dot and the
+    class escapes \\s \\S \\i \\I \\c \\C \\d \\D \\w \\W (bare or quantified), the anchors ^ $ under XPath, alternation, capturing and non-capturing groups, empty branches, any nesting): the domain of the theorems
     C01_group_grammar_end_to_end_partial / C06_group_grammar_tokenize_end_to_end_partial, on which model = specification
     is proved; here the code is compared with both.  Own generator state."""
     rng = random.Random(ctx.seed * 32452843 + 13)
@@ -340,10 +340,11 @@ def grammar_tree_stream(ctx, count, repl=""):
                 q = rng.choice(["?", "*", "+", "?", "*", "+", "{2}", "{0,2}", "{1,}", "{2,3}", "{0,1}", "{3}", "{10,12}", "{02,3}"])
                 if xpath and rng.random() < 0.4:
                     q += "?"
-                atom = "." if rng.random() < 0.25 else rng.choice(al)
+                r_ = rng.random()
+                atom = "." if r_ < 0.2 else ("\\" + rng.choice("sSiIcCdDwW") if r_ < 0.4 else rng.choice(al))
                 out += run(al) + atom + q
             elif k < 0.80:
-                out += run(al) + "."
+                out += run(al) + ("." if rng.random() < 0.5 else "\\" + rng.choice("sSiIcCdDwW"))
             elif k < 0.88 and xpath:
                 out += run(al) + rng.choice("^$")
             elif depth > 0:
@@ -360,7 +361,7 @@ def grammar_tree_stream(ctx, count, repl=""):
         al = rng.choice(["ab", "abc", "aAb", ordinary])
         pat = alt(rng.choice([0, 1, 2, 3]), al, d == "xpath")
         fl = rng.choice(["", "", "i", "m", "s", "im"])
-        for inp in gen.inputs_for(rng, al + ("\n" if ("^" in pat or "$" in pat or "." in pat) else ""), 4):
+        for inp in gen.inputs_for(rng, al + ("\n" if ("^" in pat or "$" in pat or "." in pat) else "") + (" 1_-\u0663\u00e9:" if "\\" in pat else ""), 4):
             out.append((d, fl, pat, inp, repl))
     return out
 
@@ -2329,6 +2330,13 @@ def slice_C19(ctx):
         for fl in ("", "i"):
             for inp in gen.all_strings("ab", 4) + ["aA", "Aa", "abcdefghijj", "abcdefghija0", "a0", "aa0", "a1", "ab12", "aab", "aAa"]:
                 tuples.append(("xpath", fl, p, inp, "<$1>"))
+    # a group that captures differently from different start positions, a greedy variable-length star, then
+    # the back-reference: the attempt from a later start position must not inherit what the star was
+    # offered (and refused) at the same offset during an earlier attempt
+    for p in ["(x?)y(?:ab|a)*\\1c", "(a?)b(?:ab|b)*\\1c", "(x?)y(?:ab|a)*?\\1c", "(x|)y(?:a|bc)*\\1c", "(x?)(?:ab|a)*\\1c", "(x?)y(z|ab)*\\1c",
+              "(?:(x)|y)(?:ab|a)*\\1c", "(x??)y(?:ab|a)*\\1c"]:
+        for inp in ("xyc", "yc", "xyxc", "xyac", "xyabc", "abc", "aabc", "xc", "c", "xxyc", "xyaxc"):
+            tuples.append(("xpath", "", p, inp, "<$1>"))
     for d, fl, pat, inp, ast in random_stream(ctx, ctx.n(15000, 150000), feats={"grp", "bref", "alt", "quant", "reluctant", "nc", "cls"},
                                               flagsets=["", "i"], alphabets=["ab", "aAb", "abc"], per_pattern=5, size=(2, 8), groups=0.3, brefs=0.35):
         if gen.has(ast, {"bref"}):
